@@ -6,18 +6,18 @@ EXTENDS Sector, Json
 
 CF(s1, br, s2, body, inc) ==
     [op |-> "CF", s1 |-> s1, br |-> br, s2 |-> s2, body |-> body, he |-> FALSE, eqn |-> "",
-     inc |-> inc, own |-> TRUE]
+     inc |-> inc, who |-> "S"]
 CFE(s1, br, s2, name, q, inc) ==
     [op |-> "CF", s1 |-> s1, br |-> br, s2 |-> s2, body |-> name, he |-> TRUE, eqn |-> q,
-     inc |-> inc, own |-> TRUE]
+     inc |-> inc, who |-> "S"]
 AV(name, q) == [op |-> "AV", s1 |-> "", br |-> FALSE, s2 |-> "", body |-> name, he |-> TRUE, eqn |-> q,
-                inc |-> TRUE, own |-> TRUE]
+                inc |-> TRUE, who |-> "S"]
 SR(name, q) == [op |-> "SR", s1 |-> "", br |-> FALSE, s2 |-> "", body |-> name, he |-> TRUE, eqn |-> q,
-                inc |-> TRUE, own |-> TRUE]
-EX(name, own) == [op |-> "EX", s1 |-> "", br |-> FALSE, s2 |-> "", body |-> name, he |-> FALSE, eqn |-> "",
-                  inc |-> TRUE, own |-> own]
+                inc |-> TRUE, who |-> "S"]
+EX(name, who) == [op |-> "EX", s1 |-> "", br |-> FALSE, s2 |-> "", body |-> name, he |-> FALSE, eqn |-> "",
+                  inc |-> TRUE, who |-> who]
 
-(* quick: 24 actions, histories of length 3 *)
+(* quick: 25 actions, histories of length 3 *)
 MC_AlphaQuick == {
     CF("",  FALSE, "",  "A",   TRUE),       \* A
     CF("-", FALSE, "",  "A",   TRUE),       \* -A
@@ -32,7 +32,7 @@ MC_AlphaQuick == {
     CFE("-", FALSE, "",  "A", D2, TRUE),
     CFE("",  FALSE, "",  "A", "", FALSE),
     CFE("-", TRUE,  "-", "B", D1, TRUE),
-    EX("A", TRUE), EX("B", TRUE), EX("A*B", TRUE), EX("A", FALSE),
+    EX("A", "S"), EX("B", "S"), EX("A*B", "S"), EX("A", "T"), EX("A", "O"),
     AV("A", ""), AV("A", "0.0"), AV("A", D2), AV("B", D1),
     SR("A", D1), SR("A", "0.0"), SR("B", "") }
 
@@ -43,14 +43,14 @@ FInner == Form("", TRUE, "-")     FOuter == Form("-", TRUE, "")     FBoth  == Fo
 Forms6 == {FPlain, FPlus, FMinus, FInner, FOuter, FBoth}
 Forms4 == {FPlus, FMinus, FInner, FBoth}
 
-(* thorough, length 3: 56 actions *)
+(* thorough, length 3: 58 actions *)
 MC_AlphaMid ==
     { CF(f.s1, f.br, f.s2, b, i) : f \in Forms4, b \in {"A", "B", "A*B"}, i \in BOOLEAN }
     \cup { CFE(f.s1, f.br, f.s2, "A", q, i) : f \in {FPlus, FMinus}, q \in {"", D1, D2}, i \in BOOLEAN }
     \cup { CFE(f.s1, f.br, f.s2, "B", q, TRUE) : f \in {FPlain, FBoth}, q \in {"", D1, D2} }
     \cup { AV("A", q) : q \in Eqns } \cup { AV("B", D1), AV("B", "") }
     \cup { SR("A", D1), SR("A", "0.0"), SR("A", ""), SR("B", D2) }
-    \cup { EX("A", TRUE), EX("B", TRUE), EX("A*B", TRUE), EX("A", FALSE) }
+    \cup { EX("A", "S"), EX("B", "S"), EX("A*B", "S"), EX("A", "T"), EX("B", "T"), EX("A", "O") }
 
 (* thorough, length 2: every action of the instance (all six spellings, all four bodies) *)
 MC_AlphaFull ==
@@ -58,11 +58,11 @@ MC_AlphaFull ==
     \cup { CFE(f.s1, f.br, f.s2, n, q, i) : f \in Forms6, n \in FlowNames, q \in {"", D1, D2}, i \in BOOLEAN }
     \cup { AV(n, q) : n \in FlowNames, q \in Eqns }
     \cup { SR(n, q) : n \in FlowNames, q \in Eqns }
-    \cup { EX(b, o) : b \in Bodies, o \in BOOLEAN }
+    \cup { EX(b, w) : b \in Bodies, w \in Sectors }
 
 (* a short string that identifies an action within any alphabet *)
 Key(a) == a.op \o ":" \o TermText(a) \o ":" \o (IF a.he THEN a.eqn ELSE "none") \o ":"
-          \o (IF a.inc THEN "i" ELSE "n") \o (IF a.own THEN "o" ELSE "x")
+          \o (IF a.inc THEN "i" ELSE "n") \o a.who
 
 Terminal == Len(log) = MaxLen
 Emit == /\ log = << >> => PrintT(<< "ALPHA", ToJson({ [key |-> Key(a), a |-> a] : a \in Alphabet }) >>)
